@@ -25,6 +25,7 @@ build() {
   mkdir -p "$SCR/repo/verifsim"
   cp "$VERIF/instrument/verifsim.go.txt" "$SCR/repo/verifsim/verifsim.go"
   if [ "$instr" = 1 ]; then
+    cp -a "$SCR/repo" "$SCR/repo-plain"
     (cd "$VERIF/instrument" && go build -trimpath -o "$SCR/instrument" .) || { echo "HARNESS-TROUBLE: instrumenter does not build" >&2; exit 2; }
     "$SCR/instrument" "$SCR/repo" > "$SCR/instrument.log" 2>&1 || { cat "$SCR/instrument.log" >&2; echo "HARNESS-TROUBLE: instrumentation failed" >&2; exit 2; }
     tail -n 1 "$SCR/instrument.log"
@@ -33,6 +34,13 @@ build() {
   cp "$SCR/repo/go.sum" "$SCR/go.sum"
   (cd "$VERIF/sim" && go build -trimpath -modfile="$SCR/go.mod" -tags verif -o "$SCR/simcheck" ./cmd/simcheck) \
     || { echo "HARNESS-TROUBLE: build against $REPO failed (property not decided)" >&2; exit 2; }
+  if [ "$instr" = 1 ]; then
+    # auxiliary race tier of C17: the same harness, built with -race against an UN-instrumented copy
+    sed "s|=> /repo|=> $SCR/repo-plain|" "$VERIF/sim/go.mod" > "$SCR/go-plain.mod"
+    cp "$SCR/repo-plain/go.sum" "$SCR/go-plain.sum"
+    (cd "$VERIF/sim" && CGO_ENABLED=1 go build -race -trimpath -modfile="$SCR/go-plain.mod" -tags verif -o "$SCR/simcheck-race" ./cmd/simcheck) \
+      || { echo "HARNESS-TROUBLE: -race build against $REPO failed" >&2; exit 2; }
+  fi
 }
 
 case "$1" in
@@ -48,7 +56,8 @@ case "$1" in
     [ $# -eq 2 ] || usage
     prop="$(python3 -c 'import json,sys; print(json.load(open(sys.argv[1]))["property"])' "$2")" || exit 2
     if [ "$prop" = C17 ]; then build 1; else build 0; fi
-    "$SCR/simcheck" replay -file "$2" -verif "$VERIF" -repo "$SCR/repo" -scratch "$SCR"
+    rb=(); [ -x "$SCR/simcheck-race" ] && rb=(-racebin "$SCR/simcheck-race")
+    "$SCR/simcheck" replay -file "$2" -verif "$VERIF" -repo "$SCR/repo" -scratch "$SCR" "${rb[@]}"
     exit $? ;;
   C02|C06|C12|C18|C17)
     [ $# -eq 2 ] || usage
@@ -62,6 +71,8 @@ case "$1" in
     extra=()
     [ -n "${VERIF_BUDGET:-}" ] && extra+=(-budget "$VERIF_BUDGET")
     [ -n "${VERIF_NO_EVIDENCE:-}" ] && extra+=(-no-evidence)
+    [ -x "$SCR/simcheck-race" ] && extra+=(-racebin "$SCR/simcheck-race")
+    [ -n "${VERIF_RACE_BUDGET:-}" ] && extra+=(-race-budget "$VERIF_RACE_BUDGET")
     "$SCR/simcheck" run -prop "$1" -tier "$tier" -seed "$SEED" -workers "$WORKERS" -verif "$VERIF" -repo "$SCR/repo" -scratch "$SCR" "${extra[@]}"
     exit $? ;;
   *) usage ;;
